@@ -120,17 +120,19 @@ Proof. exact config_ctor_refines. Qed.
 Print Assumptions C10_source_config_constructor.
 
 (* the comparisons of two configurations, translated from the CURRENT source: c1 and c2 are comparable exactly when they have the same sink on equal multigraphs
-   (comparable_b = (q1 =? q2) && graph_eqb g1 g2); then c1 == c2, c1 >= c2, c1 <= c2 are cfg_eq / cfg_le of the model - the order of C10_order - on V - {q};
-   for incomparable configurations == answers False and >=, <= raise. Every iteration order of the sets gives the same answers. *)
+   (comparable_b = (q1 =? q2) && graph_eqb g1 g2); then c1 == c2, c1 >= c2, c1 <= c2, c1 < c2, c1 > c2 are cfg_eq / cfg_le / cfg_lt of the model - the order of C10_order - on V - {q};
+   for incomparable configurations == answers False and >=, <=, <, > raise. Every iteration order of the sets gives the same answers. *)
 Theorem C10_source_order : forall g1 g2 gg1 gg2 vs1 vs2 q1 q2 vt1 vt2 dd1 dd2 D E so, wfb g1 = true -> wfb g2 = true -> rep_graph gg1 g1 -> rep_graph gg2 g2 ->
   rep_vset (nv g1) vs1 -> rep_vset (nv g2) vs2 -> rep_vtilde (nv g1) q1 vt1 -> rep_vtilde (nv g2) q2 vt2 -> NoDup vt1 -> rep_div (nv g1) dd1 D -> rep_div (nv g2) dd2 E ->
   (forall l, Permutation.Permutation (so l) l) ->
   CFConfigMoves__is_comparable_to q1 vs1 gg1 so q2 vs2 gg2 vt2 dd2 = PyOk (comparable_b g1 g2 q1 q2) /\
   CFConfigMoves___eq__ q1 vs1 gg1 vt1 dd1 so q2 vs2 gg2 vt2 dd2 = PyOk (comparable_b g1 g2 q1 q2 && cfg_eq g1 q1 D E) /\
   CFConfigMoves___ge__ q1 vs1 gg1 vt1 dd1 so q2 vs2 gg2 vt2 dd2 = (if comparable_b g1 g2 q1 q2 then PyOk (cfg_le g1 q1 E D) else PyExn tt) /\
-  CFConfigMoves___le__ q1 vs1 gg1 vt1 dd1 so q2 vs2 gg2 vt2 dd2 = (if comparable_b g1 g2 q1 q2 then PyOk (cfg_le g1 q1 D E) else PyExn tt).
+  CFConfigMoves___le__ q1 vs1 gg1 vt1 dd1 so q2 vs2 gg2 vt2 dd2 = (if comparable_b g1 g2 q1 q2 then PyOk (cfg_le g1 q1 D E) else PyExn tt) /\
+  CFConfigMoves___lt__ q1 vs1 gg1 vt1 dd1 so q2 vs2 gg2 vt2 dd2 = (if comparable_b g1 g2 q1 q2 then PyOk (cfg_lt g1 q1 D E) else PyExn tt) /\
+  CFConfigMoves___gt__ q1 vs1 gg1 vt1 dd1 so q2 vs2 gg2 vt2 dd2 = (if comparable_b g1 g2 q1 q2 then PyOk (cfg_lt g1 q1 E D) else PyExn tt).
 Proof. intros g1 g2 gg1 gg2 vs1 vs2 q1 q2 vt1 vt2 dd1 dd2 D E so W1 W2 G1 G2 V1 V2 T1 T2 N1 R1 R2 Hso. split; [apply comparable_refines; assumption|].
-  split; [apply config_eq_refines; assumption|]. split; [apply config_ge_refines; assumption|apply config_le_refines; assumption]. Qed.
+  split; [apply config_eq_refines; assumption|]. split; [apply config_ge_refines; assumption|]. split; [apply config_le_refines; assumption|]. split; [apply config_lt_refines; assumption|apply config_gt_refines; assumption]. Qed.
 Print Assumptions C10_source_order.
 
 (* CFConfig.is_legal_set_firing translated from the CURRENT source - validation of the members, `self.copy()` (checked to be CFConfig(copy.deepcopy(self.divisor), q): the translated
